@@ -42,10 +42,11 @@ var c15Datasets = []c15Dataset{
 		Table: ".config", Row: ".fullname", Col: ".file",
 	},
 	{
-		// (iii) three columns, a missing cell, sub-name keys
+		// (iii) three columns, sub-name keys; row B has no cell in the FIRST (baseline) column but cells in both
+		// later ones
 		Name: "3cols-missing",
 		Files: []string{
-			"BenchmarkA/k=1 1 10 ns/op\nBenchmarkA/k=2 1 20 ns/op\nBenchmarkA/k=3 1 30 ns/op\nBenchmarkB/k=1 1 40 ns/op\nBenchmarkB/k=3 1 60 ns/op\nBenchmarkA/k=1 1 11 ns/op\n",
+			"BenchmarkA/k=1 1 10 ns/op\nBenchmarkA/k=2 1 20 ns/op\nBenchmarkA/k=3 1 30 ns/op\nBenchmarkB/k=2 1 40 ns/op\nBenchmarkB/k=3 1 60 ns/op\nBenchmarkA/k=1 1 11 ns/op\n",
 		},
 		Table: ".config", Row: ".name", Col: "/k",
 	},
